@@ -170,7 +170,9 @@ func vfC03Alphabet(thorough bool) []vfOp {
 	}
 	// (the leaf names "ç", "ş" and "é" are multi-byte UTF-8: byte and character counts differ)
 	a = append(a, vfOp{Op: "softlink", Path: "/s", Target: "/a"}, vfOp{Op: "softlink", Path: "/a/ş", Target: "/dänglïng"},
-		vfOp{Op: "extlink", Path: "/é", Target: "/obj"}, vfOp{Op: "densegroup", Path: "/dg", Target: "/b"})
+		vfOp{Op: "extlink", Path: "/é", Target: "/obj"}, vfOp{Op: "densegroup", Path: "/dg", Target: "/b"},
+		// a soft link to the root group: the shortest valid target
+		vfOp{Op: "softlink", Path: "/sr", Target: "/"})
 	// hard links whose target is a link object or a dense group (their headers grow by the
 	// reference count message like any other object's)
 	for _, t := range []string{"/s", "/é", "/dg"} {
